@@ -27,7 +27,7 @@ func init() {
 		Tech:        "static analysis: targeted nil-guard dominance (access-path facts, helper-parameter and closure summaries) + error-discipline on SSA",
 		NeedU1:      true,
 		NeedU2:      true,
-		Rules:       []func(*Ctx){ruleC07NilGuard, ruleC07LengthGuard, ruleC07AuthenticatedOnly, ruleC07ErrorsPropagate, ruleC07SuccessCarriesData, ruleC07UseAfterErrorCheck, ruleC07DecodedPointerElementsGuarded, ruleC07MapLookupPointerGuarded, ruleC01ProvenanceDecrypt, ruleC07AtomicValueSingleType, ruleC19SessionNil, noWriteToNilledMapRule("C07", pkgApp, pkgCache), nilContradictionRule("C07", false, "github.com/godaddy/asherah/go/appencryption"), recoverReportsFailureRule("C07", pkgApp, pkgInt, pkgPersist, pkgKmsV1, pkgKmsV2, pkgDynV1, pkgDynV2), ruleC19NilSafeDecoding, ruleC15FilterGeometryFixed, ruleC15LFUNoEmptyBucket, ruleC15ListEndsNonEmpty},
+		Rules:       []func(*Ctx){ruleC07NilGuard, ruleC07LengthGuard, ruleC07AuthenticatedOnly, ruleC07ErrorsPropagate, ruleC07SuccessCarriesData, ruleC07UseAfterErrorCheck, ruleC07DecodedPointerElementsGuarded, ruleC07MapLookupPointerGuarded, ruleC01ProvenanceDecrypt, ruleC07AtomicValueSingleType, ruleC19SessionNil, noWriteToNilledMapRule("C07", pkgApp, pkgCache), nilContradictionRule("C07", false, "github.com/godaddy/asherah/go/appencryption"), recoverReportsFailureRule("C07", pkgApp, pkgInt, pkgPersist, pkgKmsV1, pkgKmsV2, pkgDynV1, pkgDynV2), ruleC19NilSafeDecoding, ruleC15FilterGeometryFixed, ruleC15LFUNoEmptyBucket, ruleC15ListEndsNonEmpty, ruleC19NilableResultsChecked},
 	})
 }
 
@@ -125,15 +125,40 @@ func knownGE(x, y ssa.Value, b *ssa.BasicBlock) bool {
 		if !ok {
 			continue
 		}
+		same := sameExpr
+		if fct.Sub != nil {
+			// a fact established at every call site of this helper: compare in the helper's frame
+			fct := fct
+			same = func(inFact, local ssa.Value) bool {
+				return pureSizeExpr(local) && exprKey(fct, inFact) == exprKey(Fact{}, local)
+			}
+		}
 		switch {
-		case bo.Op == token.LSS && sameExpr(bo.X, x) && sameExpr(bo.Y, y) && !fct.True,
-			bo.Op == token.GEQ && sameExpr(bo.X, x) && sameExpr(bo.Y, y) && fct.True,
-			bo.Op == token.GTR && sameExpr(bo.X, y) && sameExpr(bo.Y, x) && !fct.True,
-			bo.Op == token.LEQ && sameExpr(bo.X, y) && sameExpr(bo.Y, x) && fct.True:
+		case bo.Op == token.LSS && same(bo.X, x) && same(bo.Y, y) && !fct.True,
+			bo.Op == token.GEQ && same(bo.X, x) && same(bo.Y, y) && fct.True,
+			bo.Op == token.GTR && same(bo.X, y) && same(bo.Y, x) && !fct.True,
+			bo.Op == token.LEQ && same(bo.X, y) && same(bo.Y, x) && fct.True:
 			return true
 		}
 	}
 	return false
+}
+
+// pureSizeExpr: a constant, len() of a parameter / field path, or a niladic interface method (NonceSize(), Overhead())
+// on such a path — the expressions sameExpr also treats as equal when they are spelled the same.
+func pureSizeExpr(v ssa.Value) bool {
+	v = resolve(v)
+	if _, ok := constOf(v); ok {
+		return true
+	}
+	cv, ok := v.(*ssa.Call)
+	if !ok {
+		return false
+	}
+	if b, isB := cv.Call.Value.(*ssa.Builtin); isB {
+		return b.Name() == "len" && len(cv.Call.Args) == 1 && !strings.HasPrefix(accessPath(cv.Call.Args[0]), "V:")
+	}
+	return cv.Call.IsInvoke() && len(cv.Call.Args) == 0 && !strings.HasPrefix(accessPath(cv.Call.Value), "V:")
 }
 
 func isLenOf(v ssa.Value, x ssa.Value) bool {
